@@ -394,11 +394,12 @@ pub fn record_sizes(args: &Args) {
             evs.into_iter().for_each(|e| out.ev(e));
         }
     }
-    // CPC: the 0.1% clause is counted over all checkpoints of a trace file
+    // CPC: the 0.1% clause is counted over all checkpoints of a trace file; every CPC checkpoint goes
+    // into one run (one file)
+    out.next_run("size-cpc");
     for &lgk in &[4u8, 8, 10, 11, 12] {
         for shape in 0..3u8 {
             for rep in 0..(if thorough { 6 } else { 2 }) {
-                out.next_run("size-cpc");
                 let mut sk = CpcSketch::new(lgk);
                 let mut evs = vec![];
                 let limit = max_n.min(1 << 20);
@@ -415,12 +416,12 @@ pub fn record_sizes(args: &Args) {
         }
     }
     // CPC, repeated streams over domains whose distinct count sweeps the compression phases
-    // (C / K from 2.5 to 15 in steps of 0.5): the image size depends on the phase, not on the prefix length
+    // (domain / K from 1 to 15 in steps of 0.5): the image size depends on the phase, not on the prefix length
     for &lgk in &[10u8, 11, 12] {
         let k = 1u64 << lgk;
-        for j in 0..(if thorough { 50 } else { 26 }) {
-            out.next_run("size-cpc-phases");
-            let domain = k * 5 / 2 + k * j / (if thorough { 4 } else { 2 });
+        for j in 0..(if thorough { 56 } else { 29 }) {
+            // domains from 1.0 K upwards (C / K from about 0.8)
+            let domain = k + k * j / (if thorough { 4 } else { 2 });
             let base = rng.next();
             let mut sk = CpcSketch::new(lgk);
             let mut evs = vec![];
